@@ -398,6 +398,7 @@ impl Handler for PreferPrimordialsHandler {
     }
 
     if GLOBAL_TARGETS.contains(&ident.sym().as_ref())
+      && ident.ctxt() == ctx.unresolved_ctxt()
       && !is_shadowed(ident, ctx.scope())
     {
       ctx.add_diagnostic_with_hint(
